@@ -64,7 +64,15 @@ func queryTimeFromString(t string) (time.Time, error) {
 
 func (t *BleveQueryTime) MarshalJSON() ([]byte, error) {
 	tt := time.Time(t.Time)
-	return []byte("\"" + tt.Format(QueryDateTimeFormat) + "\""), nil
+	format := QueryDateTimeFormat
+	if format == time.RFC3339 {
+		// RFC3339 drops fractional seconds, so a bound such as
+		// 03:04:05.5 would come back as 03:04:05 and match other
+		// documents; RFC3339Nano prints the same text for whole seconds
+		// and is accepted by the same parsers
+		format = time.RFC3339Nano
+	}
+	return []byte("\"" + tt.Format(format) + "\""), nil
 }
 
 func (t *BleveQueryTime) UnmarshalJSON(data []byte) error {
